@@ -8,7 +8,8 @@ RULE = ("Hypothesis-generated graph cases biased to wide layers of parallelizabl
         "with group/combine steps, --jobs absent/1..5, launch failures and non-zero exits, and schedule tapes that "
         "complete slots out of order. Oracle = replay of the event log maintaining the set of running task processes. "
         "Non-trivial = JOBS>=2, >=2 processes in flight at some instant, and a slot value handed out again after an "
-        "out-of-order completion. Distinct = SHA-1 of case JSON.")
+        "out-of-order completion. Distinct = SHA-1 of case JSON."
+        " A quarter of the cases start Conductor with COND_SLOT=7 already in its own environment.")
 ASSUMPTIONS = ["a task process counts as running from its spawn until its exit event in the virtual kernel's log",
                "group/combine steps are instantaneous at their 'Running' print"]
 ESSENTIAL = ["slot_reused_out_of_order", "sequential_ready_while_parallel_inflight", "sync_step_with_parallel_tasks",
